@@ -259,3 +259,38 @@ PROPS["C03"] = dict(SCAN_COMMON, mc=_scan_mc(),
                "sequences and 4-valued matrices whose 8-bit rounding reorders windows. Trusted: TLC, Json module.",
     rule="impl->spec: one history per (input, arm, block size, k): scan_new, k x next(), max(); each input with two block "
          "sizes / arms and with k = 0; distinct_nontrivial = distinct (arm, input, block size, k).")
+
+
+PWM_INV = ["Involution", "MirrorScore", "Bounds", "RowSumsOne", "RCFreq", "LgPow2", "LgMono", "LgAdd"]
+def _pwm_mc():
+    return [dict(name="MC_Pwm", module="MC_Pwm", invariants=PWM_INV, constants=dict(),
+                 quick=dict(MaxM=2, CellVals="{0, 2}", MaxX=3000), thorough=dict(MaxM=2, CellVals="{0, 1, 3}", MaxX=8000))]
+PROPS["C09"] = dict(mc=_pwm_mc(), record=True, trace="Trace_C09", shards=12,
+    level_text="The conversions are D-layer definitions in exact rational arithmetic (counts, (count+pseudo)/total, "
+               "frequency/background with the zero-background convention, fixed-point logarithm in the requested base, "
+               "min/max score as sums of row extrema, validity predicates); their algebraic facts (rows sum to one, window "
+               "scores within [min,max], Lg exact on powers of two / monotone / additive) are model-checked on all small "
+               "matrices. Every recorded conversion of the real library (DNA and protein, scalar and per-symbol "
+               "pseudocounts, uniform / dyadic / decimal backgrounds, bases 2, 4, 8, 10, 2.75, every route to log-odds, "
+               "rescale, from_sequences incl. ragged input, Background::new / from_counts, FrequencyMatrix::new) is "
+               "validated by TLC against them.",
+    level_note="Numeric accuracy is outside the technique: frequencies/weights are checked to 2^-12 (1-2 units), log-odds "
+               "to 6 units of 2^-10; zeros, -inf and counts exactly. Valid decimal backgrounds rejected by the exact "
+               "`sum == 1.0` test are reported as a note, not a violation (C09 only requires invalid input to be rejected). "
+               "Trusted: TLC, Json module, quantisation code.",
+    rule="impl->spec: one event per conversion result; distinct_nontrivial = distinct (alphabet, count matrix, "
+         "pseudocounts, background) / sequence sets.",
+    assumptions=["counts <= 24 per row, widths <= 10, pseudocounts in {0,1/10,1/4,1/2,3/4,1}, background denominators "
+                 "<= 32 (so that all cross-multiplications stay below 2^31 in TLC)"])
+PROPS["C10"] = dict(mc=_pwm_mc(), record=True, trace="Trace_C10", shards=12,
+    level_text="Reverse complement is the D-layer operator RC (row reversal + A<->T, C<->G, N fixed); involution, mirrored "
+               "window scores and commutation with counting are model-checked on all small matrices / words. Recorded "
+               "reverse complements of real count / frequency / scoring matrices (widths 0..30, wildcard column populated, "
+               "-inf cells), their double application, both orders of conversion under strand-symmetric pseudocounts and "
+               "background, and the scores of the reverse-complemented matrix on the reverse-complemented sequence are "
+               "validated by TLC.",
+    level_note="Weight matrices are covered through the commutation events (no public constructor from raw cells). "
+               "Grid matrices make the mirrored-score comparison exact; conversions compared to 2^-12 / 2^-10. "
+               "Python reverse_complement is covered by C17. Trusted: TLC, Json module.",
+    rule="impl->spec: events rc (4 per width), rc_commute, rc_score; distinct_nontrivial = distinct (matrix, sequence).",
+    assumptions=["DNA only (the only complementable alphabet)"])
